@@ -31,7 +31,7 @@ FILES = ["adcgen/sympy_objects.py", "adcgen/indices.py", "adcgen/expr_container.
 TIMEOUT = 20000
 POOL = [("i", ""), ("j", ""), ("i1", ""), ("j10", ""), ("a", ""), ("b", ""), ("a2", ""),
         ("p", ""), ("q", ""), ("i", "a"), ("i", "b"), ("j", "a"), ("a", "a"), ("a", "b"),
-        ("p", "a"), ("p", "b")]
+        ("p", "a"), ("p", "b"), ("k", ""), ("c", ""), ("b10", ""), ("k", "a"), ("b", "b")]
 
 
 def sym(n, s):
@@ -104,7 +104,12 @@ def run_tensor(item):
     if kind == "A" and (len(set(U)) < len(U) or len(set(L)) < len(L)) and obj is not S.Zero:
         res["det"].append("repeated index in an antisymmetric group does not give zero")
     spin = any(s.spin for s in idx)
-    model = Model(2, 2, spin=True) if spin else Model(2, 2)
+    # the model hosts the largest antisymmetric group (else every entry is a forced zero)
+    cnt = {"occ": 2, "virt": 2}
+    for grp in (U, L):
+        for sp in cnt:
+            cnt[sp] = max(cnt[sp], sum(1 for s in grp if s.space == sp))
+    model = Model(2, 2, spin=True) if spin else Model(min(4, cnt["occ"]), min(4, cnt["virt"]))
     Uir, Lir = tuple(IR.idx_ir(s) for s in U), tuple(IR.idx_ir(s) for s in L)
     ref = EntryRef("d", kind, Uir, Lir, bks)
     target = list(dict.fromkeys(idx))
@@ -269,7 +274,8 @@ def main():
     fut = ex.submit(chrun.run_conditions, ch_conditions(a.tier), "", 8)
     rng = random.Random(seed() * 31 + 6)
     titems = []
-    shapes = [(1, 1), (2, 2), (2, 1), (1, 2), (3, 3)] if not quick else [(1, 1), (2, 2), (2, 1), (3, 3)]
+    shapes = [(1, 1), (2, 2), (2, 1), (1, 2), (3, 3), (4, 2), (4, 4), (5, 1)] if not quick \
+        else [(1, 1), (2, 2), (2, 1), (3, 3), (4, 2), (4, 4)]
     for cls in "ASM":
         for bks in (0, 1, -1):
             for (nu, nl) in shapes:
@@ -280,6 +286,13 @@ def main():
                     picks_list = list(product(range(len(POOL)), repeat=2))
                 elif not quick and (nu, nl) == (2, 2) and cls != "M":
                     picks_list = [tuple(rng.randrange(len(POOL)) for _ in range(4)) for _ in range(3000)]
+                elif max(nu, nl) >= 4:
+                    k = {(4, 2): 30, (4, 4): 8, (5, 1): 0}[(nu, nl)] if quick else \
+                        {(4, 2): 300, (4, 4): 100, (5, 1): 100}[(nu, nl)]
+                    # spinless indices only (a spin model with 2 spatial orbitals per space
+                    # cannot host four indices of one spin); mostly one space per group
+                    nospin = [q for q, (nm, sp) in enumerate(POOL) if not sp]
+                    picks_list = [tuple(rng.choice(nospin) for _ in range(nu + nl)) for _ in range(k)]
                 else:
                     k = 40 if quick else 600
                     picks_list = [tuple(rng.randrange(len(POOL)) for _ in range(nu + nl)) for _ in range(k)]
